@@ -115,6 +115,7 @@ pub struct RgsUpdate {
 
 #[derive(Clone, Debug)]
 pub struct RgsSnapshot {
+	#[allow(dead_code)]
 	pub name: String,
 	pub latest_seen: u32,
 	pub node_ids: Vec<Pk33>,
